@@ -120,11 +120,15 @@ for id_, meta in T.items():
     conf = {}
     if os.path.exists(log):
         for ln in open(log).read().splitlines():
-            if "=" in ln and not ln.startswith("="):
+            if "=" in ln and not ln.startswith(("=", "SKIPPED", "FAILED", "rerun_alone")):
                 k, v = ln.split("=", 1)
                 conf[k.strip()] = v.strip()
-            elif "passed" in ln or "failed" in ln:
+            elif " passed" in ln and ln.startswith("="):
                 conf["test_suite_with_patch"] = ln.strip("= ").strip()
+            elif ln.startswith("FAILED"):
+                conf.setdefault("failed_tests", []).append(ln.split()[1])
+            elif ln.startswith("rerun_alone"):
+                conf.setdefault("failed_tests_rerun_alone", []).append(ln[len("rerun_alone "):])
     meta["confirmed_by_me"] = dict(how="tools/confirm_seed.sh: scratch worktree of /repo HEAD under /var/tmp (removed afterwards): demo without patch, git apply, demo with patch, unedited test suite with patch (-n 8, /venv/bin on PATH so the 3 clang-format tests pass)", **conf)
     meta["files"] = sorted(f for f in os.listdir(d) if f != "meta.json")
     meta["how_to_rerun"] = f"tools/try_seed.sh seeded/{id_}/patch.diff {meta['property']} quick   (applies to /repo, runs the check with VERIF_EVIDENCE_SKIP=1, reverts)"
